@@ -11,6 +11,9 @@ CLAIMS = {
  "C04": dict(cat="other", tech="static analysis: abstract interpretation of the AIR's MIR into exact constraint polynomials per opcode (constant propagation, canonical forms), compared with the parsed specification; call-graph reachability for wiring",
    text="The constraint polynomials are reconstructed from the AIR source (mirsym over MIR facts) for each of the 89 opcodes and compared with obligations parsed at run time from docs/src/design: every documented copy/shift cell must have exactly the constraint s_i' - s_j (up to a unit), every operation-specific cell must be fixed by a constraint linear in it with a constant non-zero coefficient (a per-cell proof that a wrong value violates a constraint) or be a listed conditional cell that occurs in an active constraint, every documented formula that parses must be present up to a unit, flag_X(opcode_Y) is the identity matrix, depth/overflow constraints have their canonical forms, the range-checker polynomial has roots {0,3^k} and b_range is the LogUp identity, chiplet slots are selector-gated and mention every listed column, and every enforce_* function is wired. Breaking any of these makes some wrong transition acceptable, for every trace.",
    note="Trusted: " + TB + "; the mirsym interpreter; docs/src/design as oracle; frozen CONDITIONAL/EXEMPT/LATEX_DISCREPANCIES tables (each row with its reason). Chiplet determinacy, conditional cells and bus-defined cells are not decided. Level is 'other' because listed known findings leave obligations undischarged.", ref="§3 C04"),
+ "C03": dict(cat="other", tech="static analysis: abstract interpretation of every operation handler (all syntactic paths) into next-row expressions, substituted into the extracted constraint polynomials; canonical-form comparison; typestate of decoder rows",
+   text="Writer/reader agreement over all operations: each handler path of Process::execute_op (extracted by abstract interpretation on a symbolic stack row) writes all 16 next-row cells through exactly one copy/shift primitive and one clock advance; its next row, helper values and fmp update, substituted into every stack transition constraint restricted to that opcode, give the zero polynomial (constraints that depend on values the model treats as fresh - u32 limbs, memory, advice - are counted as undecided, not passed); handler effects agree cell by cell with the documented shift sentences and opcode prefix classes; control operations execute the documented Noop/Drop; helper registers read by constraints are written; exactly the prefix-100 operations request range checks; every DecoderTrace::append_* grows all 24 columns by one row with correct op bits and degree-reduction columns; the trace length formula has exactly its three sources plus NUM_RAND_ROWS and no capacity hint.",
+   note="Trusted: " + TB + "; mirsym and the abstract Process model (stack/system/chiplets/host intrinsics in vlib/procmodel.py); docs/src/design. Not decided: auxiliary columns, chiplet fragments, range-table contents, concrete trace values.", ref="§3 C03"),
 }
 
 NA = {
